@@ -3,10 +3,12 @@ package main
 import (
 	"encoding/json"
 	"fmt"
+	"github.com/skycoin/skycoin/src/cipher/bip39"
 	"io"
 	"net/http"
 	"os"
 	"path/filepath"
+	"strings"
 	"sync"
 	"time"
 
@@ -74,8 +76,11 @@ type fxInfo struct {
 	EncNewSpend  string   `json:"enc_new_spend"`    // signed and valid, not in the pool
 	EncUnsigned  string   `json:"enc_unsigned"`     // valid unsigned spend of a plain-wallet output
 	EncNoInputs  string   `json:"enc_no_inputs"`
-	XPub         string   `json:"xpub"`
-	SecKeyHex    string   `json:"seckey_hex"` // an unrelated secret key (collection wallets / private-keys)
+	// EncVariants: further encoded transactions with boundary field values (output coins 0 / 2^63-1 / 2^63 / 2^64-1, output hours
+	// 2^64-1, sums that wrap), each once as a signed spend of an unspent output and once without inputs
+	EncVariants map[string]string `json:"enc_variants"`
+	XPub        string            `json:"xpub"`
+	SecKeyHex   string            `json:"seckey_hex"` // an unrelated secret key (collection wallets / private-keys)
 }
 
 type fxKeys struct {
@@ -177,7 +182,16 @@ func openNode(dir string) (*node, error) {
 	for _, s := range api.VerifAPISets() {
 		en[s] = struct{}{}
 	}
-	n.mux = api.VerifNewServerMux(api.VerifMuxConfig{Host: c27Host, DisableCSRF: true, DisableHeaderCheck: true, DisableCSP: true, EnabledAPISets: en,
+	// the GUI is on: "/" and every top-level entry of the static directory are served by net/http's file server behind the
+	// same middleware (their error bodies are plain text, unlike every API handler's)
+	static := filepath.Join(dir, "static")
+	if _, err := os.Stat(static); err != nil {
+		os.MkdirAll(filepath.Join(static, "assets"), 0o700)                                                                               //nolint:errcheck
+		os.WriteFile(filepath.Join(static, "index.html"), []byte("<html><body>"+strings.Repeat("skycoin ", 200)+"</body></html>"), 0o600) //nolint:errcheck
+		os.WriteFile(filepath.Join(static, "assets", "app.js"), []byte("console.log('skycoin')\n"), 0o600)                                //nolint:errcheck
+		os.WriteFile(filepath.Join(static, "main.v2.js"), []byte("// bundle v2\n"), 0o600)                                                //nolint:errcheck
+	}
+	n.mux = api.VerifNewServerMux(api.VerifMuxConfig{Host: c27Host, DisableCSRF: true, DisableHeaderCheck: true, DisableCSP: true, EnabledAPISets: en, EnableGUI: true, AppLoc: static,
 		Health: api.HealthConfig{BuildInfo: readable.BuildInfo{Version: "0.27.0", Commit: "verif", Branch: "verif"},
 			DaemonUserAgent: useragent.Data{Coin: "skycoin", Version: "0.27.0"}, BlockPublisher: true}}, n.gw)
 	return n, nil
@@ -350,6 +364,38 @@ func buildFixture(dir, state string) (info *fxInfo, err error) {
 	if x, ok := b44.(interface{ XPub() string }); ok {
 		info.XPub = x.XPub()
 	}
+	// a watch-only (xpub) wallet over the external chain of the bip44 wallet: it owns the same - funded - addresses but holds no
+	// secret keys, so every request that makes a wallet sign meets a wallet that cannot
+	{
+		seed, err := bip39.NewSeed(fxBip44Seed, "")
+		if err != nil {
+			return nil, err
+		}
+		c, err := bip44.NewCoin(seed, bip44.CoinTypeSkycoin)
+		if err != nil {
+			return nil, err
+		}
+		acct, err := c.Account(0)
+		if err != nil {
+			return nil, err
+		}
+		ext, err := acct.External()
+		if err != nil {
+			return nil, err
+		}
+		xp := ext.PublicKey().String()
+		xw, err := n.w.CreateWallet("xpub.wlt", wallet.Options{Type: wallet.WalletTypeXPub, XPub: xp, Label: "xpub", GenerateN: 2})
+		if err != nil {
+			return nil, fmt.Errorf("create xpub wallet: %v", err)
+		}
+		xe, err := xw.GetEntries()
+		if err != nil || len(xe) < 1 || xe[0].Address.String() != be[0].Address.String() {
+			return nil, fmt.Errorf("fixture: the xpub wallet does not own the bip44 wallet's first external address (%v)", err)
+		}
+		if info.XPub == "" {
+			info.XPub = xp
+		}
+	}
 
 	gb, err := n.v.GetSignedBlockBySeq(0)
 	if err != nil || gb == nil {
@@ -426,6 +472,32 @@ func buildFixture(dir, state string) (info *fxInfo, err error) {
 		info.EncUnsigned = hexOf(fxSpend(cux, nil, []fxOut{{k.kAddr, 100 * C, 10}, {pA(0), cux[0].Body.Coins - 100*C, 10}}, false))
 	default:
 		return nil, fmt.Errorf("unknown state %q", state)
+	}
+	// boundary-valued transactions: spend of an unspent output of the known address (signed), and the same outputs without inputs
+	{
+		info.EncVariants = map[string]string{}
+		var vin coin.UxArray
+		var vkeys []cipher.SecKey
+		if kux := b.unspents(k.kAddr); len(kux) > 0 {
+			vin, vkeys = kux[:1], []cipher.SecKey{k.kSec}
+		} else {
+			vin, vkeys = b.unspents(gAddr)[:1], []cipher.SecKey{k.genSec}
+		}
+		const maxI64 = uint64(1)<<63 - 1
+		shapes := map[string][]fxOut{
+			"coins-2^63-1":        {{k.kAddr, maxI64, 1}},
+			"coins-2^63":          {{k.kAddr, maxI64 + 1, 1}},
+			"coins-2^64-1":        {{k.kAddr, ^uint64(0), 1}},
+			"coins-sum-wraps":     {{k.kAddr, ^uint64(0), 1}, {pA(0), 2e6, 1}},
+			"hours-2^64-1":        {{k.kAddr, 1e6, ^uint64(0)}},
+			"hours-sum-wraps":     {{k.kAddr, 1e6, ^uint64(0)}, {pA(0), 1e6, 2}},
+			"coins-and-hours-max": {{k.kAddr, ^uint64(0), ^uint64(0)}},
+		}
+		for name, outs := range shapes {
+			info.EncVariants["spend:"+name] = hexOf(fxSpend(vin, vkeys, outs, true))
+			info.EncVariants["spend-unsigned:"+name] = hexOf(fxSpend(vin, nil, outs, false))
+			info.EncVariants["no-inputs:"+name] = hexOf(fxSpend(nil, nil, outs, false))
+		}
 	}
 	head, err := n.v.GetHeadBlock()
 	if err != nil {
